@@ -96,21 +96,25 @@ func TestVerifC38Bounded(t *testing.T) {
 		}
 	}
 	// (3) stress: goroutines interning the same fresh strings concurrently must agree
-	rounds := 300
+	rounds := 8000
 	if thorough {
-		rounds = 5000
+		rounds = 60000
 	}
+	const c38workers = 16
 	for r := 0; r < rounds; r++ {
 		s := fmt.Sprintf("concurrent-string-%d", r)
-		ids := make([]ID, 8)
+		ids := make([]ID, c38workers)
 		var wg sync.WaitGroup
+		start := make(chan struct{}) // barrier: all goroutines reach Intern at the same moment
 		for g := range ids {
 			wg.Add(1)
 			go func(g int) {
 				defer wg.Done()
+				<-start
 				ids[g] = tab.Intern(s)
 			}(g)
 		}
+		close(start)
 		wg.Wait()
 		evals++
 		for _, id := range ids {
@@ -120,7 +124,7 @@ func TestVerifC38Bounded(t *testing.T) {
 			}
 		}
 	}
-	fmt.Printf("BOUNDED: {\"evaluations\":%d,\"distinct\":%d,\"rule\":\"(1) all 256 byte values of both char6 tables (complete); (2) every string of length <=2 over all 256 bytes and length 3..%d over a 10-byte corner alphabet (alphabet, '.', '-', NUL, bytes >=0x80) through Intern/Value/Query on one Table; (3) %d rounds of 8 goroutines interning the same new string (schedule sampling)\",\"exhaustive\":true,\"bound\":\"len<=2 over 256 bytes, len<=%d over 10 bytes\",\"samples\":[%s,%s,%s]}\n", evals, len(strs), maxLen, rounds, maxLen, c38json(strs[5]), c38json(strs[70000]), c38json(strs[len(strs)-9]))
+	fmt.Printf("BOUNDED: {\"evaluations\":%d,\"distinct\":%d,\"rule\":\"(1) all 256 byte values of both char6 tables (complete); (2) every string of length <=2 over all 256 bytes and length 3..%d over a 10-byte corner alphabet (alphabet, '.', '-', NUL, bytes >=0x80) through Intern/Value/Query on one Table; (3) %d rounds of 16 goroutines released by a barrier interning the same new string (schedule sampling)\",\"exhaustive\":true,\"bound\":\"len<=2 over 256 bytes, len<=%d over 10 bytes\",\"samples\":[%s,%s,%s]}\n", evals, len(strs), maxLen, rounds, maxLen, c38json(strs[5]), c38json(strs[70000]), c38json(strs[len(strs)-9]))
 }
 
 // c38json renders a sample as a JSON string (Go's %q escapes such as \x00 are not JSON).
